@@ -6,7 +6,8 @@ import Pfst.Props.C09
 
 `Pfst/Parse.lean` is an executable precedence-climbing parser written from the grammar's levels and operand slots.
 On the fragment `inFrag` (names, integer literals, parenthesised groups, all binary operators incl. `**`, unary
-`+ - ~`, `not`, n-ary `and`/`or`, comparison chains, conditional expression, `lambda:`, `await`):
+`+ - ~`, `not`, n-ary `and`/`or`, comparison chains, conditional expression, `lambda:`, `await`, and the postfix
+trailers: attribute access, subscript by an expression, call with positional expression arguments):
 
 * `parse_iff`      the parser decides the grammar: `parse s ts = some e  ↔  Derives s ts e ∧ inFrag e`;
 * `derives_unique` a phrase derives at most one tree of the fragment (unambiguity);
@@ -15,8 +16,9 @@ On the fragment `inFrag` (names, integer literals, parenthesised groups, all bin
 * `replace_groups_unique`  the printed phrase of a tree with a replaced operand derives ONLY that tree.
 
 Kinds covered: `bin op` (op ≤ 12), `un op` (op < 3), `not_`, `boolop _`, `cmp ops` (ops ∈ 80..89), `ifexp`, `lambda`,
-`await_`.  Not covered (still validated against CPython only): `named`, `yield_`, `yieldFrom`, `star`, `starArg`, `tuple`,
-`call`, `attr`, `subscr`, displays, comprehensions, statement and pattern kinds.  Uniqueness is *within the fragment*:
+`await_`, `attr _`, `subscr`, `call n []` — with all children again in the fragment (so: no starred / named / keyword
+arguments, no tuple or slice as subscript).  Not covered (still validated against CPython only): `named`, `yield_`,
+`yieldFrom`, `star`, `starArg`, `tuple`, `call` with keywords, displays, comprehensions, statement and pattern kinds.  Uniqueness is *within the fragment*:
 the relation `Derives` lets a leaf carry any class and has unit-like kinds (`exprStmt`), so a tree outside the fragment
 can share a phrase with one inside.
 -/
@@ -25,7 +27,8 @@ open Pfst.Grammar Pfst.Parse Pfst.C09
 
 /-- **The parser is complete for the grammar, in front of any continuation.**  `follow s.minLad rest` says precisely:
 the first token of `rest` (if any) is not an infix-operator token — binary operator, `**`, comparison operator, `and`,
-`or`, `if` — whose construct has ladder level `≥ s.minLad` (such a token would continue the phrase). -/
+`or`, `if`, or a trailer opener `(` `[` `.` (level `ATOM`) — whose construct has ladder level `≥ s.minLad` (such a
+token would continue the phrase). -/
 theorem parse_derives (s : Slot) (ts : List Tok) (e : E) (rest : List Tok) (hd : Derives s ts e)
     (hf : inFrag e = true) (hfol : follow s.minLad rest = true) : parseE s (ts ++ rest) = some (e, rest) :=
   parse_complete rest hd hf hfol
@@ -182,6 +185,40 @@ example : parse (sl TEST) [.sym tAwait, ta, .sym tPow, tb] = some (.node (.bin 1
 /-- `lambda: a if b else c` is `lambda: (a if b else c)` -/
 example : parse (sl TEST) [.sym tLambda, .sym tColon, ta, .sym tIf, tb, .sym tElse, tc] =
     some (.node .lambda [.node .ifexp [a, b, c]]) := by with_unfolding_all rfl
+/-! postfix trailers bind tightest; an integer literal needs parentheses before `.` -/
+/-- `-a.x ** b(c, d)[g]` is `-((a.x) ** ((b(c, d))[g]))` -/
+example : parse (sl TEST) [.sym 31, ta, .sym tDot, .name 7, .sym tPow, tb, .lp, tc, .sym tComma, td, .rp, .sym tLb, tg,
+      .sym tRb] =
+    some (.node (.un 1) [.node (.bin 12) [.node (.attr 7) [a],
+      .node .subscr [.node (.call 2 []) [b, c, d], g]]]) := by with_unfolding_all rfl
+/-- `await a(b).x` is `await ((a(b)).x)`; `(await a)(b)` needs its parentheses -/
+example : parse (sl TEST) [.sym tAwait, ta, .lp, tb, .rp, .sym tDot, .name 7] =
+    some (.node .await_ [.node (.attr 7) [.node (.call 1 []) [a, b]]]) := by with_unfolding_all rfl
+example : parse (sl TEST) [.lp, .sym tAwait, ta, .rp, .lp, tb, .rp] =
+    some (.node (.call 1 []) [.node .await_ [a], b]) := by with_unfolding_all rfl
+/-- `(lambda: a)()` and `a()()` -/
+example : parse (sl TEST) [.lp, .sym tLambda, .sym tColon, ta, .rp, .lp, .rp] =
+    some (.node (.call 0 []) [.node .lambda [a]]) := by with_unfolding_all rfl
+example : parse (sl TEST) [ta, .lp, .rp, .lp, .rp] = some (.node (.call 0 []) [.node (.call 0 []) [a]]) := by
+  with_unfolding_all rfl
+/-- `(1).x` is an attribute of the literal; `1 .x` (tokens `1` `.` `x`) is not a phrase of the grammar; `1[a]` is -/
+example : parse (sl TEST) [.lp, .int 1, .rp, .sym tDot, .name 7] = some (.node (.attr 7) [.leaf (.int 1) .intlit]) := by
+  with_unfolding_all rfl
+example : parse (sl TEST) [.int 1, .sym tDot, .name 7] = none := by with_unfolding_all rfl
+example : parse (sl TEST) [.int 1, .sym tLb, ta, .sym tRb] = some (.node .subscr [.leaf (.int 1) .intlit, a]) := by
+  with_unfolding_all rfl
+example : pr minimal (sl TEST) (.node (.attr 7) [.leaf (.int 1) .intlit]) = [.lp, .int 1, .rp, .sym tDot, .name 7] := by
+  decide
+/-- a printed tree with trailers, operators and conditionals (depth 5) round-trips by evaluation -/
+private def big2 : E :=
+  .node (.call 2 []) [.node (.attr 3) [.node .ifexp [a, b, c]],
+    .node (.bin 6) [.node .subscr [a, .node .lambda [b]], .node (.call 0 []) [.node (.un 2) [c]]],
+    .node (.boolop false) [.node (.attr 1) [.leaf (.int 5) .intlit], .node .not_ [.node (.call 1 []) [d, g]]]]
+example : inFrag big2 = true := by decide
+example : wf (sl TEST) big2 = true := by decide
+example : parse (sl TEST) (pr minimal (sl TEST) big2) = some big2 := by with_unfolding_all rfl
+example : parse (sl TEST) (pr (fun _ c => parenable c) (sl TEST) big2) = some big2 := by with_unfolding_all rfl
+
 /-- not phrases: `a + not b`, `a ** not b`, `a < (nothing)`, `a if b` -/
 example : parse (sl TEST) [ta, .sym 5, .sym tNot, tb] = none := by with_unfolding_all rfl
 example : parse (sl TEST) [ta, .sym 82] = none := by with_unfolding_all rfl
